@@ -364,9 +364,55 @@ def bitFlip (mask : List Bool) (sol : List Bool) : List Bool := gated mask (sol.
 /-- `PartialRandomSpread` / `PartialRandomBitstring`: `*x = fresh value`. -/
 def resample (mask : List Bool) (fresh sol : List α) : List α := gated mask fresh sol
 
-/-- Guards of the rate-gated components: invalid strength (`Normal::new` / `bound >= 0`) or rate ∉ [0,1] is `Err`. -/
-def rateGated {β : Type} (strengthValid rateValid : Bool) (result : β) : Outcome β :=
-  if !strengthValid then .err else if !rateValid then .err else .ok result
+/-- How a parameter value looks to the guards: a finite number of the carrier, `±∞` or NaN. -/
+inductive Param (F : Type) where
+  | fin (x : F) | posInf | negInf | nan
+  deriving Repr, DecidableEq
+
+section Guards
+variable {F : Type} [LE F] [DecidableLE F] [OfNat F 0] [OfNat F 1] [OfNat F 2]
+
+/-- `MutationRate::value`: `ensure!((0.0..=1.0).contains(&rm))`. -/
+def rateGuard : Param F → Bool
+  | .fin x => decide (0 ≤ x) && decide (x ≤ 1)
+  | _ => false
+
+/-- `Normal::new(0., σ)` (rand_distr 0.4.3) fails exactly for a non-finite `σ`; a negative `σ` is accepted. -/
+def normalStrengthGuard : Param F → Bool
+  | .fin _ => true
+  | _ => false
+
+/-- `UniformMutation`: `ensure!(bound >= 0.)`, then `Uniform::new_inclusive(0., bound)`, which panics
+for an infinite bound (a finite bound is assumed not to overflow the sampler's scale). -/
+def uniformBoundGuard : Param F → Outcome Unit
+  | .fin x => if 0 ≤ x then .ok () else .err
+  | .posInf => .panic
+  | _ => .err
+
+/-- `NormalMutation::execute`: strength first, then rate. -/
+def normalExec {β : Type} (strength rate : Param F) (result : β) : Outcome β :=
+  if !normalStrengthGuard strength then .err else if !rateGuard rate then .err else .ok result
+
+/-- `UniformMutation::execute`: bound guard, sampler construction, then rate. -/
+def uniformExec {β : Type} (bound rate : Param F) (result : β) : Outcome β :=
+  match uniformBoundGuard bound with
+  | .err => .err
+  | .panic => .panic
+  | .ok _ => if rateGuard rate then .ok result else .err
+
+/-- `BitFlipMutation`, `PartialRandomSpread`, `PartialRandomBitstring`, `ScrambleMutation`: only the rate is guarded
+(`PartialRandomBitstring`'s `gen_bool(p)` panics for `p ∉ [0,1]` as soon as a gate fires). -/
+def rateExec {β : Type} (rate : Param F) (result : β) : Outcome β :=
+  if rateGuard rate then .ok result else .err
+
+/-- `SwapMutation::from_params`: `ensure!(num_swap >= 2)`. -/
+def swapCtorGuard (numSwap : Nat) : Bool := decide (2 ≤ numSwap)
+
+/-- `DEMutation::from_params`: `y ∈ {1,2}` and `(0.0..=2.0).contains(&f)`. -/
+def deCtorGuard (y : Nat) : Param F → Bool
+  | .fin f => (y == 1 || y == 2) && decide (0 ≤ f) && decide (f ≤ 2)
+  | _ => false
+end Guards
 
 /-! ### 4.2 permutation mutations -/
 
@@ -441,6 +487,21 @@ a panicking crossover helper is `none`. -/
 def recombine {β : Type} (crossed : Bool) (children : Option (β × β)) (insertBoth : Bool) : Option (OptPair β) :=
   if crossed then children.map (OptPair.fromPair · insertBoth) else some .none
 
+/-- `NPointCrossover::recombine`: `dim = min(len1, len2)`, `indices = (0..dim).choose_multiple(rng, n)`
+(the witness `cuts`: `min n dim` distinct positions below `dim`), then `multi_point_crossover`.
+`NPointCrossover::new` accepts every `n`. -/
+def nPointRecombine (crossed : Bool) (cuts : List Nat) (insertBoth : Bool) (p1 p2 : List α) :
+    Option (OptPair (List α)) :=
+  recombine crossed (multiPointCrossover p1 p2 cuts) insertBoth
+
+def nPointLegal (n dim : Nat) (cuts : List Nat) : Bool :=
+  cuts.length == min n dim && nodupNat cuts && allBelow cuts dim
+
+/-- `UniformCrossover::recombine`: a mask of `min(len1, len2)` fair coin flips. -/
+def uniformRecombine (crossed : Bool) (mask : List Bool) (insertBoth : Bool) (p1 p2 : List α) :
+    Option (OptPair (List α)) :=
+  recombine crossed (uniformCrossover p1 p2 mask) insertBoth
+
 /-- `for chunk in solutions.chunks(2)`: a pair yields both parents / one child / two children, an
 odd remainder passes through. `rs` = the results of the successive `recombine` calls. -/
 def frame {β : Type} : List β → List (OptPair β) → List β
@@ -498,9 +559,6 @@ def deMutation (y : Nat) (f : F) (pop : List (List F)) : Outcome (List (List F))
   let size := y * 2 + 1
   if pop.length % size ≠ 0 then .err else .ok (deChunks f size pop.length pop)
 end DE
-
-/-- `DEMutation::from_params`: `y ∈ {1,2}` and `f ∈ [0,2]`. -/
-def deCtorOk (y : Nat) (fInRange : Bool) : Bool := (y == 1 || y == 2) && fInRange
 
 /-- DE crossovers write `mutation[i] = base[i]` on the positions of `mask`
 (indexing `0..dimension`: a solution shorter than the dimension panics). -/
